@@ -151,7 +151,7 @@ def generate(rng: random.Random, tier: str) -> dict:
             nx = rng.choice(SIDES[:12])
     axis = rng.choice(["YX", "YX", "YXS", "SYX", "SYX"])
     ns = 0 if axis == "YX" else rng.choice([1, 2, 3, 4, 5])
-    big = rng.random() < 0.05
+    big = rng.random() < 0.04
     if big:
         # many tiles per side: 2^levels exceeds the tile size, so padding adds whole tiles
         ny, nx = rng.choice([257, 272, 300, 513, 64, 100]), rng.choice([257, 272, 300, 513, 16, 100])
@@ -187,6 +187,8 @@ def generate(rng: random.Random, tier: str) -> dict:
     sink = rng.choice(["file"] * 5 + ["s3"] * 2 + ["s3-cluster"] * 2)
     place = rng.choice(["default", "default", "base-exists", "base-nested", "xdev"]) if sink == "file" else None
     workers = rng.choice([1, 1, 2, 3, 4])
+    if big:
+        workers = 1  # thousands of tasks: keep these runs free of per-call tracing overhead
     spill = rng.choice([0, 1, 1 << 10, 1 << 12, 1 << 14, 1 << 20, "default"])
     if sink != "file" and spill == 0:
         spill = 1 << 12
